@@ -377,30 +377,65 @@ func (r *InhibitRule) updateIndex(alert *types.Alert) {
 	// If the existing alert resolves after the new alert, do nothing.
 }
 
-// findEqualSourceAlert returns the source alert that matches the equal labels of the given label set.
-func (r *InhibitRule) findEqualSourceAlert(lset model.LabelSet, now time.Time) (*types.Alert, bool) {
+// findEqualSourceAlert returns a firing source alert that matches the equal
+// labels of the given label set. The index is consulted first. If the indexed
+// alert cannot be used (it has resolved, or it has to be disregarded because it
+// matches both sides of the rule), the source cache is scanned for another
+// firing alert with the same equal labels, because several source alerts can
+// share them while the index only remembers one.
+func (r *InhibitRule) findEqualSourceAlert(lset model.LabelSet, excludeTwoSidedMatch bool, now time.Time) (*types.Alert, bool) {
+	usable := func(a *types.Alert) bool {
+		return !a.ResolvedAt(now) && !(excludeTwoSidedMatch && r.TargetMatchers.Matches(a.Labels))
+	}
+
 	equalsFP := r.fingerprintEquals(lset)
 	sourceFP, ok := r.sindex.Get(equalsFP)
-	if ok {
-		alert, err := r.scache.Get(sourceFP)
-		if err != nil {
-			return nil, false
-		}
+	if !ok {
+		// The index has an entry for every equal-label fingerprint present in
+		// the source cache, so there is no source alert to find.
+		return nil, false
+	}
 
-		if alert.ResolvedAt(now) {
-			return nil, false
-		}
-
+	if alert, err := r.scache.Get(sourceFP); err == nil && usable(alert) {
 		return alert, true
 	}
 
+	for _, alert := range r.scache.List() {
+		if alert.Fingerprint() == sourceFP || r.fingerprintEquals(alert.Labels) != equalsFP {
+			continue
+		}
+		if usable(alert) {
+			return alert, true
+		}
+	}
 	return nil, false
 }
 
+// gcCallback is called with the resolved alerts that were removed from the
+// source cache. An index entry that points to a removed alert is re-pointed to
+// another cached alert with the same equal labels (preferring the one that
+// resolves last), and only deleted if there is none; an entry that points to a
+// different alert is left alone.
 func (r *InhibitRule) gcCallback(alerts []*types.Alert) {
 	for _, a := range alerts {
-		fp := r.fingerprintEquals(a.Labels)
-		r.sindex.Delete(fp)
+		eq := r.fingerprintEquals(a.Labels)
+		if indexed, ok := r.sindex.Get(eq); ok && indexed != a.Fingerprint() {
+			continue
+		}
+		var replacement *types.Alert
+		for _, other := range r.scache.List() {
+			if r.fingerprintEquals(other.Labels) != eq {
+				continue
+			}
+			if replacement == nil || replacement.ResolvedAt(other.EndsAt) {
+				replacement = other
+			}
+		}
+		if replacement != nil {
+			r.sindex.Set(eq, replacement.Fingerprint())
+		} else {
+			r.sindex.Delete(eq)
+		}
 	}
 }
 
@@ -409,11 +444,8 @@ func (r *InhibitRule) gcCallback(alerts []*types.Alert) {
 // is returned. If excludeTwoSidedMatch is true, alerts that match both the
 // source and the target side of the rule are disregarded.
 func (r *InhibitRule) hasEqual(lset model.LabelSet, excludeTwoSidedMatch bool, now time.Time) (model.Fingerprint, bool) {
-	equal, found := r.findEqualSourceAlert(lset, now)
+	equal, found := r.findEqualSourceAlert(lset, excludeTwoSidedMatch, now)
 	if found {
-		if excludeTwoSidedMatch && r.TargetMatchers.Matches(equal.Labels) {
-			return model.Fingerprint(0), false
-		}
 		return equal.Fingerprint(), found
 	}
 
